@@ -190,6 +190,16 @@ Definition obj_eqb (x y : obj) : bool :=
 Definition rbytes_eqb := res_eqb bytes_eqb.
 Definition robj_eqb := res_eqb obj_eqb.
 
+(* raw byte payloads handed to the encoder are real bytes (each < 256: a Python bytes object cannot
+   hold anything else), and an exception response is built for a function code 1..127 *)
+Definition payload_ok (o : obj) : bool :=
+  match o with
+  | OSlaveIdRsp id _ _ => wfb id
+  | OMeiRsp _ _ _ _ _ _ info _ => forallb (fun kv : Z * bytes => wfb (snd kv)) (mei_items info)
+  | OExc orig _ _ => (1 <=? orig) && (orig <? 128)
+  | _ => true
+  end.
+
 (* ---- observations -------------------------------------------------------------------------
    What the harness saw the implementation do: a value or an exception class ([Seen]), or
    something outside that universe ([Unexpected]: an object whose fields cannot be dumped — e.g.
@@ -207,8 +217,13 @@ Definition unseen {A} (s : seen A) : option (res A) :=
 Definition chk_enc_r (c : obj * res bytes) : bool * bool :=
   let '(o, obs) := c in
   (rbytes_eqb (py_pdu o) obs,
-   match abs o with
-   | Some m => rbytes_eqb obs (Ok (spec_pdu m))
+   match abs_raw o with
+   | Some m =>
+       if spec_wf m then rbytes_eqb obs (Ok (spec_pdu m))
+       else if payload_ok o
+            then match obs with Ok _ => false | Raise _ => true end   (* no PDU exists for these field values:
+                                                                         emitting bytes is non-conformant (C01_encode_rejects_all) *)
+            else true
    | None => true
    end).
 
@@ -490,15 +505,6 @@ Definition same_shape (o f : obj) : bool :=
   end.
 Definition wf_shape (o : obj) : bool := same_shape o (fresh_like o).
 
-(* raw byte payloads handed to the encoder are real bytes (each < 256: a Python bytes object cannot
-   hold anything else), and an exception response is built for a function code 1..127 *)
-Definition payload_ok (o : obj) : bool :=
-  match o with
-  | OSlaveIdRsp id _ _ => wfb id
-  | OMeiRsp _ _ _ _ _ _ info _ => forallb (fun kv : Z * bytes => wfb (snd kv)) (mei_items info)
-  | OExc orig _ _ => (1 <=? orig) && (orig <? 128)
-  | _ => true
-  end.
 
 (* classes whose decode() assigns nothing before its last statement that can raise: a raising decode
    leaves the instance exactly as it was (explicit list; the others are described by [decode_partial]) *)
